@@ -22,7 +22,7 @@ META = {
             "the operation list / probe.",
     "reach": {"world_checks": 5000, "c04:child_in_parent_checks": 50000,
               "c04:aggregate_checks": 50000, "c04:attribute_checks": 50000,
-              "moves": 2000, "isolation_probes": 100,
+              "moves": 2000, "isolation_probes": 50,
               "relation:IR.modules:child-side": 20,
               "relation:IR.modules:collection-side": 20,
               "relation:IR.modules:constructor": 20,
